@@ -65,6 +65,10 @@ class DescribeNumericAggregate(Blockwise):
 
     @staticmethod
     def operation(name, is_timedelta_col, is_datetime_col, *stats):
+        # ``describe_numeric_aggregate`` relabels the index of the quantiles
+        # it is given in place; they are the output of another task
+        stats = list(stats)
+        stats[4] = stats[4].copy()
         return describe_numeric_aggregate(
             stats, name, is_timedelta_col, is_datetime_col
         )
